@@ -44,7 +44,11 @@ def gen_structured(rng, n):
         if rng.random() < 0.1 and lines:
             lines.insert(0, rng.choice(["stray", " ", "|"]))
         nl = rng.choice(["\n", "\n", "\r\n"])
-        s = nl.join(lines)
+        if rng.random() < 0.3:
+            # mixed line endings in one file: every line picks its own terminator
+            s = "".join(ln + rng.choice(["\n", "\r\n"]) for ln in lines[:-1]) + (lines[-1] if lines else "")
+        else:
+            s = nl.join(lines)
         if rng.random() < 0.7:
             s += nl
         if rng.random() < 0.1:
@@ -72,6 +76,12 @@ def gen_pairs():
             out.append("%s\n[%s]\n" % (lead, cat))
             out.append("%s\n[%s]\nz\n[%s]\n" % (lead, cat, cat))
             out.append("%s\n[%s]" % (lead, cat))
+    # an error at the end of a file whose earlier lines mix LF and CRLF (spans computed from line starts)
+    for body in ["[a]\r\nx\n[b]\nx", "[a]\nx\r\n[b]\r\nx", "[a]\r\nx\ny\nz\n[a]", "[a]\nx\ny\r\n[b\n", "[é]\r\n名\n\n\n[c]\n名",
+                 "x\n[a]\r\n\r\ny\n[b]\ny\n", "[a]\r\nx\n[b]\ny|x", "[a]\n\r\n\n[b]\r\n[a]\n"]:
+        out.append(body)
+        out.append(body + "\n")
+        out.append(body + "\r\n")
     for line in ["|tuna|atun", " | x", "tuna|", "tuna||atun", "||", "| |x", "x| |", "\u00a0|x"]:
         out.append("[c]\n%s\n" % line)
         out.append("[c]\n%s\n[d]\nq|%s\n" % (line, line.strip("|") or "r"))
